@@ -301,6 +301,10 @@ func (c *converter) trackAddedIngress() {
 		ctx := convtypes.ResourceHAHostname
 		if port > 0 {
 			ctx = convtypes.ResourceHATCPService
+			if ing.Spec.DefaultBackend != nil {
+				// the default backend of a tcp service is the tcp service of the default host
+				c.tracker.TrackNames(convtypes.ResourceIngress, name, ctx, normalizeHostname("", port))
+			}
 		}
 		if port == 0 {
 			// hosts that are only listed in the tls attribute are changed as well
